@@ -113,7 +113,7 @@ theorem probeStep_run_eq (cfg : Config) (inuse : List (Bytes × List User)) (fs 
       match findLayer d name with
       | none => (.error .panic, w)
       | some l =>
-        if l.state == S_error then (.ok d, w) else
+        if l.state == S_error then (.ok (setLayer d (probeErr cfg inuse d name l)), w) else
         match probeLayer cfg inuse fs d name l with
         | .ok l' => (.ok (setLayer d l'), w)
         | .error e => (.error e, w) := by
@@ -131,7 +131,8 @@ theorem probeStep_run_eq (cfg : Config) (inuse : List (Bytes × List User)) (fs 
 
 /-- Loop invariant, for any per-layer verdict `V` (relative to a table) that
     * holds of the record a round stores (`hstep`),
-    * holds of every record in the error state (`herr`),
+    * holds of the record a round stores for a layer in the error state (`herr`; since fix
+      e3cb7aa that round records mounts and processes and keeps the state),
     * does not depend on anything but the skeleton and the mount view (`htrans`):
     after the loop the world is unchanged, skeleton and mount view are those of the start,
     records of names not in the list are untouched, and every listed name has a record
@@ -140,7 +141,8 @@ theorem probeLoop_inv (cfg : Config) (inuse : List (Bytes × List User)) (fs : F
     (V : Defs → Layer → Prop)
     (hstep : ∀ d name l l', findLayer d name = some l → l.state ≠ S_error →
       probeLayer cfg inuse fs d name l = .ok l' → V d l')
-    (herr : ∀ d l, l.state = S_error → V d l)
+    (herr : ∀ d name l, findLayer d name = some l → l.state = S_error →
+      V d (probeErr cfg inuse d name l))
     (htrans : ∀ d d' l, SameKeys d d' → d.mounts = d'.mounts → V d l → V d' l) :
     ∀ (names : List Bytes) (d0 d : Defs) (w w' : World),
       (names.foldlM (probeStep cfg inuse fs) d0).run.run w = (.ok d, w') →
@@ -170,7 +172,22 @@ theorem probeLoop_inv (cfg : Config) (inuse : List (Bytes × List User)) (fs : F
           findLayer d1 x = some l1 ∧ V d0 l1 := by
         by_cases hs : (l0.state == S_error) = true
         · simp only [hs, ↓reduceIte] at h
-          exact ⟨d0, l0, h, SameKeys.refl _, rfl, fun _ _ => rfl, hf, herr d0 l0 (by simpa using hs)⟩
+          obtain ⟨k1, k2, -, -, k5, -, -, -⟩ := probeErr_key cfg inuse d0 x l0
+          have k1' : (probeErr cfg inuse d0 x l0).name = l0.name := k1
+          have k2' : (probeErr cfg inuse d0 x l0).base = l0.base := k2
+          have k5' : (probeErr cfg inuse d0 x l0).layerPath = l0.layerPath := k5
+          have hn0 : l0.name = x := findLayer_name d0 x l0 hf
+          have hn1 : (probeErr cfg inuse d0 x l0).name = x := k1'.trans hn0
+          have hf' : findLayer d0 (probeErr cfg inuse d0 x l0).name = some l0 := by rw [hn1]; exact hf
+          refine ⟨setLayer d0 (probeErr cfg inuse d0 x l0), probeErr cfg inuse d0 x l0, h,
+            sameKeys_setLayer d0 l0 _ hf' ?_, rfl, ?_, ?_, herr d0 x l0 hf (by simpa using hs)⟩
+          · unfold lkey; rw [k1', k2', k5']
+          · intro n hn
+            unfold findLayer
+            exact find?_setLayer_other d0 _ n (by rw [hn1]; exact hn)
+          · have := findLayer_setLayer d0 l0 _ hf'
+            rw [hn1] at this
+            exact this
         · simp only [hs, Bool.false_eq_true, ↓reduceIte] at h
           cases hp : probeLayer cfg inuse fs d0 x l0 with
           | error e => rw [hp] at h; cases h
@@ -249,7 +266,7 @@ theorem probeAll_sameKeys (cfg : Config) (inuse : List (Bytes × List User)) (d0
     (h : (probeAll cfg inuse d0).run.run w = (.ok d, w')) : SameKeys d0 d := by
   obtain ⟨m, -, hloop⟩ := probeAll_run cfg inuse d0 d w w' h
   obtain ⟨-, h2, -, -, -⟩ := probeLoop_inv cfg inuse w.fs (fun _ _ => True)
-    (fun _ _ _ _ _ _ _ => trivial) (fun _ _ _ => trivial) (fun _ _ _ _ _ _ => trivial)
+    (fun _ _ _ _ _ _ _ => trivial) (fun _ _ _ _ _ => trivial) (fun _ _ _ _ _ _ => trivial)
     d0.order _ d w w' hloop
   exact (sameKeys_refresh d0 m _).trans h2
 
